@@ -50,6 +50,10 @@ func main() {
 		fmt.Fprintln(os.Stderr, "usage: vcheck <Cnn> [quick|thorough] [--replay file]")
 		os.Exit(core.ExitMachinery)
 	}
+	if os.Args[1] == "_triechild" {
+		trie.ConcurrentChild(os.Args[2:])
+		return
+	}
 	if os.Args[1] == "_replaychild" {
 		session.ReplayChild(os.Args[2:])
 		return
